@@ -145,6 +145,11 @@ def run(res: C.Result):
             changed = set(rec["changed"])
             distinct.add((k, ci))
             fixed = set(c["fixed"]) if not any(p[0] == "remove" for p in c["pre"]) else set()
+            dist["attempts_checked"] = dist.get("attempts_checked", 0) + rec.get("attempts", 0)
+            for ba in (rec.get("bad_attempts") or [])[:1]:
+                res.fail("attempt:not-one-operation-result", f"attempt {ba['attempt']} of the call showed check_move positions that are not (positions before the attempt) + (the operation's "
+                         f"result) for the moving atoms {ba['moving']}: off by {ba['off_by']}, other atoms moved: {ba['others_moved']} (an earlier vetoed attempt was not undone?)",
+                         {"input": c, "call": ci, "observed": ba})
             if shape == "single":
                 labels = rec["labels"][0]
                 op = c["leaves"][leaf_ids[0]]["op"]
